@@ -83,6 +83,12 @@ class GroupWorld(ClientWorld):
                               tp[0], tp[1], self.step, self.state, self.assigned))
             if self.stop_rec is not None and self.stop_rec[1]:
                 self.viol("stop", "processor-invoked-after-stop-completed", "processor invoked after stop() fired")
+        if self.cfg.get("stop_in_processor") is not None and n == self.cfg["stop_in_processor"] and \
+                self.stop_rec is None:
+            # the application decides, while handling a message, to leave the group; the processor then returns
+            # normally (its messages count as processed)
+            self.do_app(["stop"])
+            return None
         if self.cfg.get("proc_raises") is not None and n == self.cfg["proc_raises"]:
             self.nonkafka_raised = True
             self.nonkafka_at = self.clock.seconds()
